@@ -1,6 +1,7 @@
 package pmdiff
 
 import (
+	"fmt"
 	"math"
 	"testing"
 
@@ -65,6 +66,18 @@ func exhCases(l, r []string, idx, n int, thorough bool) []DiffCase {
 	return out
 }
 
+// bigSpecs lists the directed long dense inputs (seeds are filled in by the
+// caller).
+func bigSpecs(thorough bool) []BigSpec {
+	out := []BigSpec{{LN: 150, RN: 150, K: 4}, {LN: 300, RN: 300, K: 3}, {LN: 1000, RN: 1100, K: 8}, {LN: 2000, RN: 500, K: 5},
+		{LN: 1100, RN: 1000, K: 4}, {LN: 1500, K: 6, Mode: 1}, {LN: 260, RN: 4000, K: 3}, {LN: 2500, RN: 2500, K: 5}}
+	if thorough {
+		out = append(out, BigSpec{LN: 5000, RN: 5000, K: 5}, BigSpec{LN: 4000, RN: 3000, K: 16}, BigSpec{LN: 3000, RN: 3000, K: 2}, BigSpec{LN: 700, RN: 700, K: 3},
+			BigSpec{LN: 6000, K: 3, Mode: 1}, BigSpec{LN: 8000, RN: 8000, K: 4}, BigSpec{LN: 257, RN: 256, K: 1}, BigSpec{LN: 20000, RN: 300, K: 7})
+	}
+	return out
+}
+
 func TestC13Exhaustive(t *testing.T) {
 	h := vk.Start(t, "C13", "exh")
 	all := seqs([]string{"a", "b", "c"}, h.Pick(5, 6))
@@ -100,6 +113,20 @@ func TestC13Exhaustive(t *testing.T) {
 	})
 	for _, tl := range tallies {
 		h.MergeTally(tl)
+	}
+	// directed: long inputs over few different lines, so that the number of
+	// pairs of equal lines passes 2^12 ... 2^20 (thorough: 2^24)
+	bigSlot := h.Slot()
+	for i, b := range bigSpecs(h.Thorough()) {
+		if h.Failed() {
+			break
+		}
+		b.Seed = h.Mix(fmt.Sprint("big", i))
+		c := DiffCase{Big: &b, N: []int{3, 0, math.MaxInt, 1}[i%4]}
+		if b.LN*b.RN > 4_000_000 {
+			c.N = 3
+		}
+		vk.One(h, bigSlot, c, runC13)
 	}
 	h.Exhaustive()
 	if h.Failed() {
@@ -217,6 +244,12 @@ func genSteps(t *rapid.T, c *DiffCase) {
 func TestC13Rand(t *testing.T) {
 	h := vk.Start(t, "C13", "rand")
 	vk.Rapid(h, t, func(t *rapid.T) DiffCase {
+		if vk.Rare(t, "big", h.Pick(150, 100)) {
+			// long inputs over few different lines: very many pairs of equal lines
+			b := &BigSpec{LN: rapid.IntRange(257, 900).Draw(t, "bigL"), RN: rapid.IntRange(257, 900).Draw(t, "bigR"), K: rapid.IntRange(3, 12).Draw(t, "bigK"),
+				Seed: rapid.Uint64().Draw(t, "bigSeed"), Mode: rapid.SampledFrom([]int{0, 0, 1}).Draw(t, "bigMode")}
+			return DiffCase{Big: b, N: rapid.SampledFrom([]int{0, 1, 3, 50, math.MaxInt}).Draw(t, "n")}
+		}
 		alpha := rapid.SampledFrom([][]string{{"a", "b"}, {"a", "b", "c"}, {"a", "b", "c", "d", ""}, collisionAlphabet, prefixAlphabet}).Draw(t, "alpha")
 		l, r := genPair(t, alpha, rapid.SampledFrom([]int{40, 40, 100}).Draw(t, "maxLen"))
 		lay := rapid.SampledFrom([]int{0, 0, 0, 1, 2, 3}).Draw(t, "layout")
